@@ -312,7 +312,10 @@ create_1d_filter (int              width,
 static int
 filter_width (pixman_kernel_t reconstruct, pixman_kernel_t sample, double size)
 {
-    return ceil (filters[reconstruct].width + size * filters[sample].width);
+    int width = ceil (filters[reconstruct].width + size * filters[sample].width);
+
+    /* IMPULSE.IMPULSE has no extent, but a table needs at least one tap */
+    return MAX (width, 1);
 }
 
 #ifdef PIXMAN_GNUPLOT
